@@ -508,6 +508,7 @@ class Run:
         self.model_bad = []   # (group, text, replay)
         self.spec_bad = []    # (key, text, replay, kf_class)
         self.samples = []
+        self.model_unavailable = 0
 
     def count(self, group, outcome):
         d = self.dist.setdefault(group, {})
@@ -520,10 +521,18 @@ class Run:
     def flush(self):
         if not self.q:
             return
-        ans = self.runner.query(self.q) if self.runner is not None else ["ERR no runner"] * len(self.q)
         q, cb = self.q, self.cb
         self.q, self.cb = [], []
+        if self.runner is None:
+            # no extracted model (a generated item is absent or the model no longer
+            # compiles): the search against the specification still runs
+            self.model_unavailable += len(q)
+            return
+        ans = self.runner.query(q)
         for l, a, f in zip(q, ans, cb):
+            if a.startswith("ERR"):
+                self.model_bad.append(("driver", "%s -> %s" % (l[:200], a[:200]), {"kind": "driver", "query": l[:500], "model": a[:500]}))
+                continue
             f(a)
 
     # one keyword-form case: real vs model
@@ -1065,6 +1074,67 @@ def group_tables(R):
     return notes
 
 
+def group_hostport_defaults(R):
+    """host / port given without listen; the documented defaults the model reads"""
+    cases = [([], "0.0.0.0", 8080), ([("host", "10.1.2.3")], "10.1.2.3", 8080), ([("port", 9)], "0.0.0.0", 9),
+             ([("port", "9")], "0.0.0.0", 9), ([("host", "10.1.2.3"), ("port", 81)], "10.1.2.3", 81),
+             ([("port", 81), ("host", "::1")], "::1", 81), ([("host", "h"), ("threads", 2)], "h", 8080)]
+    for kw, h, p in cases:
+        real = R.kw_case("hostport", kw)
+        want = "A%s%s@%d" % ("1" if ":" in h else "0", cps(h), p)
+        got = real[1].get("listen") if real[0] == "OK" else show(real)
+        if got != want:
+            R.violation("hostport:%s" % "+".join(k for k, _ in kw),
+                        "Adjustments(%s) listens on %s, documented: %s:%d" % (", ".join("%s=%r" % kv for kv in kw), got, h, p),
+                        {"kind": "kw", "kw": kw_tokens(kw), "expected": "listen " + want, "observed": "listen " + str(got)[:300],
+                         "failing_input_found": True})
+    R.flush()
+
+
+def group_truthy(R):
+    """asbool: exactly t / true / y / yes / on / 1 (any case, surrounding whitespace) are true"""
+    A = R.A
+    yes = ["t", "true", "y", "yes", "on", "1"]
+    no = ["", "f", "false", "n", "no", "off", "0", "2", "tr", "ye", "o", "ok", "enable", "truee", "t rue", "11", "yes1", "on "[:2] + "n"]
+    for w in yes + no:
+        for form in {w, w.upper(), w.capitalize(), " " + w, w + "\n", "\t" + w.upper() + " "}:
+            want = w in yes
+            R.evaluations += 1
+            try:
+                got = A.asbool(form)
+            except Exception as e:
+                got = "EXN " + exn_name(e)
+            if got is not want:
+                R.violation("asbool:%s" % w, "asbool(%r) = %r, documented %r" % (form, got, want),
+                            {"kind": "asbool", "value": enc_value(form), "expected": str(want), "observed": str(got), "failing_input_found": True})
+
+
+def group_docs(R):
+    """documented option names against the implemented ones, read directly"""
+    A = R.A
+    names = [n for n, _ in A.Adjustments._params]
+    docs = docs_names_independent()
+    helpn = help_names_independent()
+    for n in names:
+        R.evaluations += 1
+        if n not in docs:
+            R.violation("docs-missing:%s" % n, "adjustment %r is not documented in docs/arguments.rst" % n,
+                        {"kind": "docs", "name": n, "expected": "a definition-list entry in docs/arguments.rst", "observed": "none",
+                         "failing_input_found": True})
+        if n != "sockets" and n.replace("_", "-") not in helpn:
+            R.violation("help-missing:%s" % n, "adjustment %r has no --%s entry in runner.HELP" % (n, n.replace("_", "-")),
+                        {"kind": "docs", "name": n, "expected": "--%s in runner.HELP" % n.replace("_", "-"), "observed": "none",
+                         "failing_input_found": True})
+    for d in docs:
+        if d not in names:
+            R.violation("docs-unknown:%s" % d, "docs/arguments.rst documents %r, which is not an adjustment" % d,
+                        {"kind": "docs", "name": d, "expected": "an entry of Adjustments._params", "observed": "none", "failing_input_found": True})
+    for h in helpn:
+        if h.replace("-", "_") not in names + ["help", "call", "app"] or "_" in h:
+            R.violation("help-unknown:%s" % h, "runner.HELP documents --%s, which the pre-parser does not accept" % h,
+                        {"kind": "docs", "name": h, "expected": "a long option of parse_args", "observed": "none", "failing_input_found": True})
+
+
 def run_all(ctx, runner):
     import sys
     sys.path.insert(0, os.path.join(vcommon.VERIF, "translate"))
@@ -1084,6 +1154,9 @@ def run_all(ctx, runner):
         group_families(R)
         R.flush()
         group_unknown(R)
+        group_hostport_defaults(R)
+        group_truthy(R)
+        group_docs(R)
         group_values(R, set(A.truthy))
         group_cli_shapes(R)
         group_cli_random(R, set(A.truthy))
@@ -1130,5 +1203,39 @@ def replay_one(data):
             c = real_cli(A, data["argv"])
             print("runner form %r -> %s ; model said %s" % (data["argv"], show(c)[:400], data.get("model")))
             return 0 if show(c)[:2000] != data.get("observed") else 1
+        if kind == "docs":
+            import importlib
+            n = data["name"]
+            names = [x for x, _ in A.Adjustments._params]
+            ok = True
+            if "arguments.rst" in data.get("expected", ""):
+                ok = n in docs_names_independent()
+            elif "runner.HELP" in data.get("expected", ""):
+                ok = n.replace("_", "-") in help_names_independent()
+            elif "_params" in data.get("expected", ""):
+                ok = n in names
+            else:
+                ok = n.replace("-", "_") in names + ["help", "call", "app"] and "_" not in n
+            print("documentation entry %r: %s" % (n, "present/consistent now" if ok else "still inconsistent"))
+            return 0 if ok else 1
+        if kind == "asbool":
+            v = dec_token(data["value"])
+            got = str(A.asbool(v))
+            print("asbool(%r) = %s ; expected %s" % (v, got, data.get("expected")))
+            return 0 if got == data.get("expected") else 1
+        if kind == "cast":
+            import gen_adjust
+            v = dec_token(data["value"])
+            fn = [f for n, f in A.Adjustments._params if gen_adjust.CASTS.get(f.__name__) == data["cast"]]
+            try:
+                r = canon_setting("sockets" if data["cast"] == "CSockets" else data["cast"], fn[0](py_value(v)))
+            except Exception as e:
+                r = "EXN " + exn_name(e)
+            print("%s(%r) = %s ; the model says %s" % (data["cast"], v, r, data.get("model")))
+            return 0 if r == canon_model_token(data.get("model", "")) else 1
+        if kind == "parse":
+            r, _ = real_parse(A, data["argv"])
+            print("parse_args(%r) -> %s ; the model says %s" % (data["argv"], show(r)[:400], data.get("model")))
+            return 0 if show(r)[:2000] != data.get("observed") else 1
         print("replay kind %r: re-run ./check C20" % kind)
         return 1
